@@ -340,7 +340,9 @@ def short_case(case):
             'continue_on_error': case['continue_on_error'], 'filter': case['filter'],
             'expect_hex': None if case.get('expect') is None else [p.hex() for p in case['expect']],
             'expect_err': case.get('expect_err'), 'tags': case.get('tags', []),
-            'in_domain': case.get('in_domain', False)}
+            'in_domain': case.get('in_domain', False),
+            **({'kind': case['kind']} if 'kind' in case else {}),
+            **({'allow_tabledef': True} if case.get('allow_tabledef') else {})}
 
 
 def case_from_record(rec):
@@ -349,7 +351,9 @@ def case_from_record(rec):
             'filter': rec.get('filter'),
             'expect': None if rec.get('expect_hex') is None else [bytes.fromhex(h) for h in rec['expect_hex']],
             'expect_err': rec.get('expect_err'), 'tags': rec.get('tags', []),
-            'in_domain': rec.get('in_domain', False)}
+            'in_domain': rec.get('in_domain', False),
+            **({'kind': rec['kind']} if 'kind' in rec else {}),
+            **({'allow_tabledef': True} if rec.get('allow_tabledef') else {})}
 
 
 def run_stream_cases(ctx, cases, kind='stream-scan', enforce_expect=True, prop_note=''):
@@ -392,7 +396,7 @@ def run_stream_cases(ctx, cases, kind='stream-scan', enforce_expect=True, prop_n
         if err is not None:
             ctx.dist['ended-with:err%s' % err] += 1
         n_spurious = len(o.offsets) - len(c.get('starts', o.offsets))
-        if o.cat11:
+        if o.cat11 and not c.get('allow_tabledef'):
             ctx.dist['skipped-table-definition-message'] += 1
             continue
         nontrivial = len(c['stream']) > 0 and len(o.offsets) > 0
@@ -409,11 +413,11 @@ def run_stream_cases(ctx, cases, kind='stream-scan', enforce_expect=True, prop_n
         if len(rec['stream_hex']) > 40000:
             rec['stream_hex_truncated'] = True
         ok = ctx.compare(rec, io_ if len(io_) < 400 else _digest(io_), mo if len(mo) < 400 else _digest(mo),
-                         kind=kind, holds=holds,
+                         kind=c.get('kind', kind), holds=holds,
                          extra={'theorems': 'scan_exact scan_filter scan_continue_skips scan_stops_at_error '
                                             'non_library_error_escapes (coq/properties/C11.v) rest on this tie' + prop_note})
         if c.get('expect') is not None and enforce_expect and ok and not holds():
-            ctx.violation({'kind': kind + '-predicate', 'case': rec, 'impl': io_[:400],
+            ctx.violation({'kind': c.get('kind', kind) + '-predicate', 'case': rec, 'impl': io_[:400],
                            'expected_n': len(c['expect']), 'expect_err': c.get('expect_err')},
                           'yielded messages differ from the constructed ones: %s' % c.get('name', ''))
         if c.get('expect') is not None:
